@@ -345,6 +345,11 @@ func (maw MatrixAdjustmentWith) MarshalYAML() (any, error) {
 	if _, has := maw[""]; has && len(maw) == 1 {
 		return maw[""], nil
 	}
+	if maw == nil {
+		// A nil with is an empty with. JSON would otherwise say null, which
+		// cannot be unmarshalled back.
+		return map[string]string{}, nil
+	}
 	return map[string]string(maw), nil
 }
 
@@ -356,7 +361,7 @@ func (maw *MatrixAdjustmentWith) UnmarshalOrdered(o any) error {
 	}
 
 	switch src := o.(type) {
-	case bool, int, string:
+	case bool, int, float64, string:
 		// A single scalar.
 		// (This is how you can do adjustments on a single anonymous dimension.)
 		//
@@ -374,7 +379,7 @@ func (maw *MatrixAdjustmentWith) UnmarshalOrdered(o any) error {
 		// selections.)
 		return src.Range(func(k string, v any) error {
 			switch vt := v.(type) {
-			case bool, int, string:
+			case bool, int, float64, string:
 				(*maw)[k] = fmt.Sprint(vt)
 
 			default:
